@@ -1124,7 +1124,11 @@ func (c *Check) dotEdgesDeclared() {
 				addEdge = call
 				for _, a := range call.Call.Args {
 					if lk, ok := a.(*ssa.Lookup); ok {
-						idMap = lk.X
+						if mt, ok := lk.X.Type().Underlying().(*types.Map); ok {
+							if bt, ok := mt.Elem().Underlying().(*types.Basic); ok && bt.Kind() == types.Int {
+								idMap = lk.X
+							}
+						}
 					}
 				}
 			}
